@@ -68,6 +68,12 @@ func badKinds() []badKind {
 		{"*struct{func}", func() interface{} { return &BadFuncStruct{F: func() {}, N: 2} }, true},
 		{"struct{complex}", func() interface{} { return &BadCplxStruct{S: "s", C: 1i} }, true},
 		{"[]interface{chan}", func() interface{} { return []interface{}{int32(1), make(chan int)} }, false},
+		{"nil-chan", func() interface{} { var c chan int; return c }, true},
+		{"*nil-chan", func() interface{} { var c chan int; return &c }, true},
+		{"nil-func", func() interface{} { var f func(); return f }, false},
+		{"*nil-func", func() interface{} { var f func(); return &f }, true},
+		{"*uintptr", func() interface{} { u := uintptr(7); return &u }, true},
+		{"*complex128", func() interface{} { z := complex128(1i); return &z }, true},
 	}
 }
 
